@@ -1,5 +1,6 @@
 """C04 — issuance never exceeds the signing CA (spec/CertTrust.tla, shared with C01)."""
-import json, os
+import json, os, re
+from tools import tlaval
 from tools.props import C01 as shared
 
 RULE = ("V: every (TBS certificate, signer) vector of CertTrust.tla's lattice (the C01 certificate lattice as things to be "
@@ -8,7 +9,12 @@ RULE = ("V: every (TBS certificate, signer) vector of CertTrust.tla's lattice (t
         "and verified against a pool holding the signer at every second, P-256 signatures are checked for low-S (Sign, and "
         "SignWith with lambdas returning high-S and low-S signatures); distinct = vector. T: seeded random TBS certificates "
         "(16-bit address universe, dozens of networks and groups) whose logged outcome TLC validates against SignOK. "
-        "CLI: nebula-cert ca/sign command functions on files, per constraint class")
+        "CLI: nebula-cert ca/sign command functions on files, per constraint class. H: every history of 3 operations "
+        "(Sign / SignWith with an external signer / edit of the validity window) on 2-3 long-lived TBS objects x 4-5 CAs "
+        "(second key, renewed certificate of the same key, narrower, expired, other curve) + self-signing of "
+        "CertIssue.tla is replayed on real TBSCertificate objects; every call is compared with SignOK of the object's "
+        "current fields and the signer of that call, every returned certificate is verified second by second against the "
+        "pool holding exactly that signer and against the pool holding all CAs; distinct = (history, step)")
 ASSUMPTIONS = [
     "'signing succeeds only when ...' is an only-if: a refusal of a certificate inside the constraints is counted in the "
     "evidence (refused_within_constraints, expected 0) but is not a violation; a run without any successful signing is vacuous",
@@ -21,12 +27,60 @@ ASSUMPTIONS = [
     "through the CLI the validity window is relative to the wall clock: margins of hours are used so that no verdict depends "
     "on timing",
     "key material comes from crypto/rand (no verdict depends on it); every mismatch carries the PEM certificates",
+    "histories (CertIssue.tla): the statement speaks about a signing call, so the reference outcome of a call is a function of "
+    "the TBS object's current fields and of the signer of that call; nothing of the object's past may show. A call inside the "
+    "constraints that is refused on an object with a past is a violation only when the very same call on a fresh copy of the "
+    "object succeeds (hist:refused-by-its-past: 'a refused call leaves the object usable'); otherwise it is counted like "
+    "refused_within_constraints. For a self-signed CA only usability (AddCA) is demanded, not an empty issuer field",
+    "histories: the caller's edits between calls are limited to the validity window (renewal); the other public fields of a "
+    "TBS object stay as created",
 ]
+
+
+def histories(ctx):
+    """History mode of CertIssue.tla: depth 0 = the tables of a world, the leaves = the maximal histories."""
+    from tools.check import MachineryError
+    d = ctx.spec_dir()
+    cfg = open(os.path.join(d, 'MC_CertIssue.cfg')).read()
+    hlen = int(re.search(r'HLen = (\d+)', cfg).group(1))
+    if not ctx.quick:
+        cfg = cfg.replace('Thorough = FALSE', 'Thorough = TRUE')
+    dump = os.path.join(d, 'c04_hist')
+    ctx.tlc('CertIssue', 'MC_CertIssue_run.cfg', args=['-dump', dump], cfgtext=cfg, timeout=2400,
+            java_opts=shared.JOPTS_QUICK if ctx.quick else None)
+    path = dump + '.dump' if os.path.exists(dump + '.dump') else dump
+    tables, hists = {}, []
+    with open(path) as f:
+        for block in re.split(r'^State \d+:\s*$', f.read(), flags=re.M):
+            if '|-> "tbl"' in block:
+                st = tlaval.parse_state(block)
+                tables[str(st['in'])] = st['exp']
+                continue
+            mo = re.search(r'/\\ exp = (.*?)(?=\n/\\ |\Z)', block, re.S)
+            if not mo:
+                continue
+            h = json.loads(mo.group(1).replace('<<', '[').replace('>>', ']'))       # ints and strings only
+            if len(h) == hlen:
+                hists.append((int(re.search(r'/\\ in = (\d+)', block).group(1)), h))
+    os.remove(path)
+    if not tables or not hists:
+        raise MachineryError('CertIssue.tla emitted no histories')
+    hists.sort()            # TLC's dump order depends on its workers
+    with open(os.path.join(ctx.scratch, 'c04_hist_tables.json'), 'w') as f:
+        json.dump(tables, f, separators=(',', ':'))
+    with open(os.path.join(ctx.scratch, 'c04_hist.ndjson'), 'w') as f:
+        for w, h in hists:
+            f.write(json.dumps({'w': w, 'h': h}, separators=(',', ':')) + '\n')
+    ctx.samples.append({'history': {'w': hists[len(hists) // 3][0], 'h': hists[len(hists) // 3][1]}})
+    ctx.extra['histories'] = len(hists)
+    ctx.extra['history_worlds'] = {w: {'objs': len(t['objs']), 'cas': len(t['cas']), 'curve': t['cu']} for w, t in tables.items()}
+    return len(hists)
 
 
 def run(ctx):
     from tools.check import MachineryError
     tmax = 4 if ctx.quick else 5
+    histories(ctx)
     n = shared.vectors(ctx, 'Vec_CertTrust_C04_run.cfg', shared.cfg_for(ctx, 'Vec_CertTrust_C04.cfg', tmax))
     ctx.extra['vectors'] = n
     with open(os.path.join(ctx.scratch, 'c04_plan.json'), 'w') as f:
@@ -58,6 +112,15 @@ def run(ctx):
             raise MachineryError('CLI harness failed without a verdict:\n%s' % cli['_stdout'][-3000:])
         ctx.take_mismatches(cli)
         ctx.require_actions('cli:sign:ok', 'cli:class:ok', 'cli:class:win', 'cli:class:grp', 'cli:class:net', 'cli:class:unsafe')
+    if not ctx.violations:
+        # histories: the classes the object-with-a-past part of the property lives on
+        ctx.require_actions('hist:ok:prior=other-ca',      # the same TBS object signed under two CAs
+                            'hist:ok:last=refused',        # a refusal followed by a success on the same object
+                            'hist:ok:op=ext',              # SignWith with an external signer
+                            'hist:ok:prior=same-ca', 'hist:ok:prior=fresh', 'hist:ok:prior=none-issued', 'hist:ok:last=edit',
+                            'hist:ok:op=sign', 'hist:ok:self', 'hist:ok:renewed-ca', 'hist:lowS:ext', 'hist:edit',
+                            'hist:refused:curve', 'hist:refused:win', 'hist:refused:grp', 'hist:refused:isca',
+                            'hist:refused:selfnotca', 'hist:issued:ok', 'hist:issued:exp', 'hist:issued:caexp')
     ctx.require_actions('sign:ok', 'class:ok', 'class:win', 'class:grp', 'class:net', 'class:unsafe',
                         'class:isca', 'class:curve', 'class:selfnotca', 'issued:self',
                         'lowS:Sign', 'lowS:SignWith(high-S lambda)', 'issued:ok', 'issued:exp', 'issued:caexp',
@@ -66,7 +129,8 @@ def run(ctx):
 
 META = {
     'category': 'model_checking',
-    'technique': 'TLA+ spec CertTrust.tla: SignOK written from the statement over the same Within as the verifier; TLC checks '
+    'technique': 'TLA+ specs CertTrust.tla + CertIssue.tla (TBS objects with a past: all histories of 3 operations replayed on real '
+                 'objects, every returned certificate verified against the signer of its call); CertTrust.tla: SignOK written from the statement over the same Within as the verifier; TLC checks '
                  'SignWith-shaped SignM = SignOK and SignOK => Accept on the whole lattice; every vector is executed on the real '
                  'Sign/SignWith and the issued certificate on the real verifier; recorded random signings validated by TLC; '
                  'nebula-cert ca/sign driven per constraint class',
